@@ -1467,6 +1467,21 @@ def bin_term(op, a, b):
         return ('lit', (a[1] == b[1]) == (op == 'Eq'))
     if op in ('Eq', 'Ne') and a[0] == 'ctor' and b[0] == 'ctor' and not a[2] and not b[2]:
         return ('lit', (a[1] == b[1]) == (op == 'Eq'))
+    if op in ('Eq', 'Ne') and a == b and a[0] == 'call' and a[3] is None and not leaves(a, lambda z: z[0] == 'unk'):
+        # the same pure observer (`len`, `is_empty`, ...: site None, see PURE_OBSERVERS) of the same terms is one and the same value -
+        # the assumption `St.known` already makes when the same test is met twice on a path
+        return TRUE if op == 'Eq' else FALSE
+    if op in ('Lt', 'Le', 'Gt', 'Ge') and a == b and a[0] == 'call' and a[3] is None and a[1].rsplit('::', 1)[-1] == 'len' and not leaves(a, lambda z: z[0] == 'unk'):
+        return TRUE if op in ('Le', 'Ge') else FALSE      # n < n, n <= n for one and the same length n (an integer)
+    if op in ('Eq', 'Ne', 'Lt', 'Le', 'Gt', 'Ge'):
+        # Iterator::position(pred) answers Some(i) only with the index i of an element it visited, so i < the number of elements of
+        # the sequence it walked: against `len` of that very sequence term the comparison is decided.  (As everywhere in this
+        # domain the term of a sequence stands for its value; a rule that leans on this for a mutable local has to see that nothing
+        # changes its length in between - C15 V2.value-set-only-permuted does.)
+        flip = {'Eq': 'Eq', 'Ne': 'Ne', 'Lt': 'Gt', 'Le': 'Ge', 'Gt': 'Lt', 'Ge': 'Le'}
+        for x, y, o2 in ((a, b, op), (b, a, flip[op])):
+            if x[0] == 'posidx' and x[1][0] == 'position' and y[0] == 'call' and y[1].rsplit('::', 1)[-1] == 'len' and len(y[2]) == 1 and y[2][0] == x[1][1]:
+                return TRUE if o2 in ('Ne', 'Lt', 'Le') else FALSE
     if op == 'Ne':
         return ('not', ('bin', 'Eq', a, b))
     return ('bin', op, a, b)
